@@ -26,6 +26,9 @@ struct LThread {
     int go_class = EN;
     bool yielded = false;
     int prio = 0;
+    int gate_count = 0;    // gate_at: scheduling points left until the gate applies
+    Enabled gate_until;
+    bool gated = false;    // parked at the scheduling point the gate applies to
     std::condition_variable cv;
 };
 
@@ -262,12 +265,22 @@ int sched(const Enabled& en)
     }
     std::unique_lock<std::mutex> lk(S.G);
     auto& me = *S.th[t_self];
-    me.en = en;
+    if (me.gate_count > 0 && --me.gate_count == 0 && me.gate_until) {
+        // directed path forcing: this scheduling point is additionally blocked until the gate opens
+        Enabled g = me.gate_until;
+        Enabled e0 = en;
+        me.gate_until = nullptr;
+        me.en = [g, e0] { return g() != 0 ? e0() : int(DIS); };
+        me.gated = true;
+    } else {
+        me.en = en;
+    }
     me.parked = true;
     me.go = false;
     hand_off(lk, t_self, false);
     me.parked = false;
     me.go = false;
+    me.gated = false;
     // a thread that moves un-yields the others
     for (size_t i = 1; i < S.th.size(); ++i) {
         if (int(i) != t_self) {
@@ -275,6 +288,19 @@ int sched(const Enabled& en)
         }
     }
     return me.go_class;
+}
+
+void gate_at(int k, const Enabled& until)
+{
+    if (S.running && t_self != 0 && k > 0) {
+        S.th[t_self]->gate_count = k;
+        S.th[t_self]->gate_until = until;
+    }
+}
+
+bool at_gate(int tid)
+{
+    return S.running && tid > 0 && size_t(tid) < S.th.size() && S.th[size_t(tid)]->gated;
 }
 
 void mark_yield()
